@@ -130,7 +130,48 @@ class Transpiler:
 		self.py2cpp = self.app.resolve(Py2Cpp)
 
 	def transpile(self, source: str) -> str:
-		return self.py2cpp.transpile(self.app.module(source).entrypoint)
+		with budget(REAL_CALL_BUDGET, 'transpile'):
+			return self.py2cpp.transpile(self.app.module(source).entrypoint)
+
+
+REAL_CALL_BUDGET = 30.0   # seconds for one call into the real code (parse + transpile of one small module takes well under a second)
+
+
+class BudgetExceeded(Exception):
+	"""a call into the real code ran out of its per-case budget: reported like any other exception of the real code (a finding /
+	a disagreement), never a hang of the harness"""
+
+
+class budget:
+	"""per-case wall budget for a call into the real code (SIGALRM; a no-op outside the main thread, where the caller's own
+	subprocess / future timeouts apply)"""
+
+	def __init__(self, seconds: float, what: str) -> None:
+		self.seconds, self.what, self.armed = seconds, what, False
+
+	def __enter__(self) -> 'budget':
+		import threading
+		if threading.current_thread() is threading.main_thread():
+			def on_alarm(*_: Any) -> None:
+				raise BudgetExceeded(f'{self.what}: no result within {self.seconds:.0f} s')
+			self.old = signal.signal(signal.SIGALRM, on_alarm)
+			signal.setitimer(signal.ITIMER_REAL, self.seconds)
+			self.armed = True
+		return self
+
+	def __exit__(self, *exc: Any) -> None:
+		if self.armed:
+			signal.setitimer(signal.ITIMER_REAL, 0)
+			signal.signal(signal.SIGALRM, self.old)
+
+
+def run_cmd(args: list[str], timeout: float, cwd: str | None = None) -> tuple[int, str, str]:
+	"""subprocess.run that never raises on a timeout: (-9, '', 'timeout …')"""
+	try:
+		p = subprocess.run(args, capture_output=True, text=True, timeout=timeout, cwd=cwd, errors='replace')
+		return p.returncode, p.stdout, p.stderr
+	except subprocess.TimeoutExpired:
+		return -9, '', f'timeout after {timeout:.0f} s: {args[0]}'
 
 
 # ---------------------------------------------------------------------------------------------
